@@ -156,8 +156,16 @@ def default_periodic_rule(ctx, rule, p):
                "periodic data and coordinates are handed on to interpolate_at_points", fd.loc(pc[0]) if pc else fd.loc())
     # along_axis: the per-variable (period, discont) pair reaches the interpolator (checked in C13 R13.4) and comes from the mapping
     la = local_assignments(fa.node)
-    okp = any(d[0] == "unpack" and ast.unparse(d[1]) == "periodic_data[variable]" and d[2] == 0 for d in la.get("period_data", [])) \
-        and any(d[0] == "unpack" and ast.unparse(d[1]) == "periodic_data[variable]" and d[2] == 1 for d in la.get("discont_data", []))
+    # the locals are whatever names reach the interpolator's data_period / data_discont parameters
+    ndc_ = [c for c in calls(fa.node) if call_name(c) == "NdInterpolator"]
+    nb_ = (binding.bind_by_name(p.get_method("interpolate.nd_interp.NdInterpolator", "__init__"), ndc_[0], True) or {}) if len(ndc_) == 1 else {}
+    n_per = nb_.get("data_period").id if isinstance(nb_.get("data_period"), ast.Name) else "?"
+    n_dis = nb_.get("data_discont").id if isinstance(nb_.get("data_discont"), ast.Name) else "?"
+    lv_ = [n.target.id for n in own_walk(fa.node) if isinstance(n, ast.For) and ast.unparse(n.iter) == fa.params[1] and isinstance(n.target, ast.Name)
+           and any(c in list(ast.walk(n)) for c in ndc_)]
+    key_ = f"{fa.params[3]}[{lv_[0]}]" if lv_ else "?"
+    okp = any(d[0] == "unpack" and ast.unparse(d[1]) == key_ and d[2] == 0 for d in la.get(n_per, [])) \
+        and any(d[0] == "unpack" and ast.unparse(d[1]) == key_ and d[2] == 1 for d in la.get(n_dis, []))
     ctx.expect(okp, rule, "interpolate_dataset_along_axis[(period, discont) from the mapping]",
                "a variable's period and discontinuity are read from the mapping entry of that variable", fa.loc())
     pcoord = [n for n in own_walk(fa.node) if isinstance(n, ast.Dict) and {
@@ -166,13 +174,19 @@ def default_periodic_rule(ctx, rule, p):
     ctx.expect(bool(pcoord), rule, "interpolate_dataset_along_axis[periodic coordinates]",
                "longitude and direction are periodic coordinates with period 360 by default", fa.loc())
     # interpolate_at_points: per-variable lookup
-    okpt = "periodic_data[variable][0]" in ast.unparse(fpnt.node) and "periodic_data[variable][1]" in ast.unparse(fpnt.node)
     tc = [c for c in calls(fpnt.node) if call_name(c) == "interpolate_track_data_arrray"]
     if len(tc) == 1:
         ft = p.get_function("interpolate.dataarray.interpolate_track_data_arrray")
         b = binding.bind_by_name(ft, tc[0], False) or {}
-        okpt = okpt and ast.unparse(b.get("period_data", ast.Constant(None))) == "period_data" \
-            and ast.unparse(b.get("discont", ast.Constant(None))) == "discont" \
+        lap = local_assignments(fpnt.node)
+        lvp = [n.target.id for n in own_walk(fpnt.node) if isinstance(n, ast.For) and isinstance(n.target, ast.Name)
+               and tc[0] in list(ast.walk(n)) and ast.unparse(n.iter) == fpnt.params[0]]
+        mp = fpnt.params[4] if len(fpnt.params) > 4 else "?"
+
+        def from_map(e, k):
+            return isinstance(e, ast.Name) and bool(lvp) and any(
+                d[0] == "assign" and ast.unparse(d[1]) == f"{mp}[{lvp[0]}][{k}]" for d in lap.get(e.id, []))
+        okpt = from_map(b.get("period_data"), 0) and from_map(b.get("discont"), 1) \
             and ast.unparse(b.get("periodic_coordinates", ast.Constant(None))) == "periodic_coordinates" \
             and ast.unparse(b.get("independent_variable", ast.Constant(None))) == "independent_variable"
     else:
@@ -182,12 +196,19 @@ def default_periodic_rule(ctx, rule, p):
     # data frames
     fdf = p.get_function("interpolate.dataframe.interpolate_dataframe_time")
     src = ast.unparse(fdf.node)
-    ifs = [n for n in own_walk(fdf.node) if isinstance(n, ast.If) and "'direction' in name.lower()" in ast.unparse(n.test)]
-    okdir = any("fp_period = 360" in ast.unparse(ast.Module(body=i.body, type_ignores=[])) and
-                "fp_discont = 360" in ast.unparse(ast.Module(body=i.body, type_ignores=[])) for i in ifs)
+    ic0 = [c for c in calls(fdf.node) if call_name(c) == "interpolate_periodic"]
+    b0 = (binding.bind_by_name(p.get_function("interpolate.general.interpolate_periodic"), ic0[0], False) or {}) if len(ic0) == 1 else {}
+    n_fp = b0.get("fp_period").id if isinstance(b0.get("fp_period"), ast.Name) else "?"
+    n_fd = b0.get("fp_discont").id if isinstance(b0.get("fp_discont"), ast.Name) else "?"
+    col = [n.target.id for n in own_walk(fdf.node) if isinstance(n, ast.For) and isinstance(n.target, ast.Name) and ic0
+           and ic0[0] in list(ast.walk(n))]
+    col = col[0] if col else "?"
+    ifs = [n for n in own_walk(fdf.node) if isinstance(n, ast.If) and f"'direction' in {col}.lower()" in ast.unparse(n.test)]
+    okdir = any(f"{n_fp} = 360" in ast.unparse(ast.Module(body=i.body, type_ignores=[])) and
+                f"{n_fd} = 360" in ast.unparse(ast.Module(body=i.body, type_ignores=[])) for i in ifs)
     ctx.expect(okdir, rule, "interpolate_dataframe_time[direction columns]", "direction columns: period 360, wrapped to [0, 360)", fdf.loc())
     lon_ifs = [n for n in ast.walk(fdf.node) if isinstance(n, ast.If) and "longitude" in ast.unparse(n.test)]
-    oklon = any("fp_period = 360" in ast.unparse(ast.Module(body=i.body, type_ignores=[])) for i in lon_ifs)
+    oklon = any(f"{n_fp} = 360" in ast.unparse(ast.Module(body=i.body, type_ignores=[])) for i in lon_ifs)
     ctx.expect(oklon, rule, "interpolate_dataframe_time[longitude columns]",
                "longitude columns are interpolated with period 360 like in the sibling functions", fdf.loc())
     ic = [c for c in calls(fdf.node) if call_name(c) == "interpolate_periodic"]
@@ -195,7 +216,8 @@ def default_periodic_rule(ctx, rule, p):
     if len(ic) == 1:
         fip = p.get_function("interpolate.general.interpolate_periodic")
         b = binding.bind_by_name(fip, ic[0], False) or {}
-        okc = ast.unparse(b.get("fp_period", ast.Constant(None))) == "fp_period" and ast.unparse(b.get("fp_discont", ast.Constant(None))) == "fp_discont"
+        okc = isinstance(b.get("fp_period"), ast.Name) and isinstance(b.get("fp_discont"), ast.Name) \
+            and b["fp_period"].id != b["fp_discont"].id
     ctx.expect(okc, rule, "interpolate_dataframe_time[settings forwarded]", "the column's period and discontinuity reach interpolate_periodic", fdf.loc())
     # tracks
     trk = p.get_method("interpolate.geometry.Track", "interpolate")
@@ -274,27 +296,41 @@ def run(ctx):
     pi_f = p.get_method(ND, "_periodic_data_interpolator")
     it3 = Interp(p, opaque={WRAPDIFF: "wrapdiff"})
     me = Obj(p.get_class(ND), {"data_period": P("data_period")}, "nd")
-    assigns = {ast.unparse(n.targets[0]): n for n in ast.walk(pi_f.node) if isinstance(n, ast.Assign) and len(n.targets) == 1}
+    from .c13 import _interpolator_roles
+    roles = _interpolator_roles(pi_f)
+    single = {}
+    for n in ast.walk(pi_f.node):
+        if isinstance(n, ast.Assign) and len(n.targets) == 1 and isinstance(n.targets[0], ast.Name):
+            single.setdefault(n.targets[0].id, []).append(n)
     env = Env(it3, pi_f, pi_f.module)
     env.vars["self"] = me
-    if "to_rad" in assigns and "val" in assigns:
-        tr = T.to_term(it3.eval(assigns["to_rad"].value, env))
-        ctx.equiv("R14.2", "_periodic_data_interpolator[to radians]", tr, 2 * sp.pi / P("data_period"), pi_f.loc(assigns["to_rad"]),
+    va = roles.get("val_assign")
+    # the scale factor is the local read by the unit-vector expression whose own definition mentions the data period
+    n_rad = None
+    if va is not None:
+        for nm_ in ast.walk(va.value):
+            if isinstance(nm_, ast.Name) and nm_.id in single and nm_.id != roles.get("idx") and any(
+                    "data_period" in ast.unparse(d.value) for d in single[nm_.id]):
+                n_rad = nm_.id
+    if va is not None and n_rad is not None and len(single[n_rad]) == 1:
+        tr = T.to_term(it3.eval(single[n_rad][0].value, env))
+        ctx.equiv("R14.2", "_periodic_data_interpolator[to radians]", tr, 2 * sp.pi / P("data_period"), pi_f.loc(single[n_rad][0]),
                   "data are scaled by 2*pi/period before averaging on the unit circle", interp=it3)
-        env.vars["to_rad"] = P("to_rad")
+        env.vars[n_rad] = P("to_rad")
         me.fields["get_data"] = P("get_data")
         me.fields["interp_coord_dim_indices"] = P("dims")
-        env.vars["intp_indices_nd"] = P("corner")
-        v = T.to_term(it3.eval(assigns["val"].value, env))
+        env.vars[roles.get("idx") or "?"] = P("corner")
+        v = T.to_term(it3.eval(va.value, env))
         data = op("apply", P("get_data"), P("corner"), P("dims"))
-        ctx.equiv("R14.2", "_periodic_data_interpolator[unit vectors]", v, sp.exp(sp.I * data * P("to_rad")), pi_f.loc(assigns["val"]),
+        ctx.equiv("R14.2", "_periodic_data_interpolator[unit vectors]", v, sp.exp(sp.I * data * P("to_rad")), pi_f.loc(va),
                   "corner values enter as exp(i * angle)", interp=it3)
     else:
-        ctx.unsure("R14.2", "_periodic_data_interpolator", "to_rad / val assignments not found", pi_f.loc())
-    finals = [n for n in ast.walk(pi_f.node) if isinstance(n, ast.Assign) and ast.unparse(n.targets[0]) == "interp_val"
+        ctx.unsure("R14.2", "_periodic_data_interpolator", "scale factor / unit-vector assignments not found", pi_f.loc())
+    n_acc, n_ws = roles.get("acc"), roles.get("wsum")
+    finals = [n for n in ast.walk(pi_f.node) if isinstance(n, ast.Assign) and len(n.targets) == 1 and isinstance(n.targets[0], ast.Name)
               and "np.angle" in ast.unparse(n.value)]
-    if len(finals) == 1:
-        env.vars.update({"weights_sum": P("wsum"), "interp_val": P("acc")})
+    if len(finals) == 1 and n_acc and n_ws:
+        env.vars.update({n_ws: P("wsum"), n_acc: P("acc")})
         v = T.to_term(it3.eval(finals[0].value, env))
         want = op("angle", op("where", CMP("gt", P("wsum"), sp.Rational(1, 2)), P("acc") / P("wsum"), T.NAN_T)) * P("data_period") / (2 * sp.pi)
         ctx.equiv("R14.2", "_periodic_data_interpolator[angle back to data units]", v, want, pi_f.loc(finals[0]),
@@ -302,8 +338,8 @@ def run(ctx):
     else:
         ctx.unsure("R14.2", "_periodic_data_interpolator[angle]", "final angle expression not found", pi_f.loc())
     rets = [n for n in ast.walk(pi_f.node) if isinstance(n, ast.Return)]
-    if len(rets) == 1:
-        env.vars["interp_val"] = P("angle_in_data_units")
+    if len(rets) == 1 and len(finals) == 1:
+        env.vars[finals[0].targets[0].id] = P("angle_in_data_units")
         v = T.to_term(it3.eval(rets[0].value, env))
         ctx.equiv("R14.2", "_periodic_data_interpolator[wrap]", v, op("wrapdiff", P("angle_in_data_units"), P("data_period"), P("data_period")),
                   pi_f.loc(rets[0]), "the result is wrapped into one period ending at the period", interp=it3)
